@@ -137,6 +137,8 @@ class FMMULock:
             fcntl.lockf(self.fd, fcntl.LOCK_UN)
 
     def get_next_addr(self):
+        if (self.base_addr + (1 << 12)) >> (12 + 10) != self.base_addr >> (12 + 10):
+            raise RuntimeError('out of FMMU addresses for this process')
         self.base_addr += 1 << 12
         return self.base_addr
 
